@@ -87,6 +87,19 @@ ScanReplies == {
   "*2" \o CRLF \o B("281474976710656") \o "*0" \o CRLF,       \* node cursor = 2^48
   "*2" \o CRLF \o B("0") \o "*1" \o CRLF \o "*1" \o CRLF \o B("k") }
 
+(* ---- values a backend may return while a compression config is present: the decompress hook inspects every *)
+(* bulk string of the reply (also nested ones) for the header  magic(3) algorithm(1) CR LF; {00} {01} {ff}  *)
+(* stand for the bytes 0x00 0x01 0xff (replaced by the replayer, which also fixes the bulk lengths)          *)
+Magic == "(P$"
+CpsBulks == { "(", "(P", Magic, Magic \o "{00}", Magic \o "{00}\r", Magic \o "{00}" \o CRLF,
+              Magic \o "{01}" \o CRLF \o "x", Magic \o "{ff}" \o CRLF \o "x", Magic \o "{00}" \o CRLF \o "garbage-not-snappy",
+              Magic \o "{00}" \o "\n\r" \o "x", "x" \o Magic \o "{00}" \o CRLF }
+\* shape of the reply around the value: a bulk, a pair of bulks, a nested array, a simple string, an error
+CpsReplies ==    {[shape |-> "bulk", val |-> b] : b \in CpsBulks}
+            \cup {[shape |-> "pair", val |-> b] : b \in CpsBulks}
+            \cup {[shape |-> "nested", val |-> b] : b \in {Magic, Magic \o "{00}\r"}}
+            \cup {[shape |-> "simple", val |-> Magic], [shape |-> "error", val |-> Magic]}
+
 (* ---- the vectors *)
 Vec(side, ctx, form, payload) == [side |-> side, ctx |-> ctx, form |-> form, payload |-> payload]
 
@@ -100,6 +113,7 @@ BackendVecs ==
   \cup {Vec("backend", "keyed", "error", r) : r \in Redirects}
   \cup {Vec("backend", "cluster-nodes", "bulk", c) : c \in ClusterNodes}
   \cup {Vec("backend", "cluster-nodes", "bytes", g) : g \in Generic}
+  \cup {Vec("backend", "keyed-cps", "cps", c) : c \in CpsReplies}
   \cup {Vec("backend", "scan", "bytes", s) : s \in ScanReplies}
   \cup {Vec("backend", "scan", "error", r) : r \in {"MOVED 1 127.0.0.1:1", "ASK 1", "MOVED"}}
   \cup {Vec("backend", "readonly", "bytes", g) : g \in {"-ERR unknown" \o CRLF, "*0" \o CRLF, "$-1" \o CRLF, "-MOVED 1" \o CRLF, "-ASK" \o CRLF}}
@@ -114,6 +128,6 @@ Next == /\ i <= Len(VecSeq) /\ PrintT("@@VEC " \o ToJson(VecSeq[i])) /\ i' = i +
 Spec == Init /\ [][Next]_i
 
 \* every parsing context of the proxy is covered by at least one vector of every form it can meet
-Contexts == {"raw", "keyed", "cluster-nodes", "scan", "readonly", "asking"}
+Contexts == {"raw", "keyed", "keyed-cps", "cluster-nodes", "scan", "readonly", "asking"}
 AllContextsCovered == \A c \in Contexts : \E v \in AllVecs : v.ctx = c
 =============================================================================
